@@ -122,7 +122,12 @@ def envelope_description(v, c):
         "suit-manifest": {
             "suit-manifest-version": 1, "suit-manifest-sequence-number": 1,
             "suit-common": {
-                "suit-components": [["TEST", 1, 2, 3]],
+                # the manifest also names OTHER manifests as components (a root naming its dependencies), before its own component id:
+                # the role is that of the manifest's own class, not of the first installed-manifest component in sight
+                "suit-components": [["TEST", 1, 2, 3],
+                                    ["INSTLD_MFST", {"RFC4122_UUID": {"namespace": "nordicsemi.com", "name": "nRF54H20_sample_app"}}],
+                                    ["INSTLD_MFST", {"RFC4122_UUID": {"namespace": "nordicsemi.com", "name": "nRF9280_sample_rad"}}],
+                                    ["CAND_MFST", 0]],
                 "suit-shared-sequence": [
                     {"suit-directive-set-component-index": 0},
                     {"suit-directive-override-parameters": {
